@@ -665,6 +665,8 @@ class PathEnumerator:
                 src = rv.place.local if rv.place.is_local() else self._tuple_field_source(rv.place, bb)
                 if src is not None and src in cls and cls[src][0] in VARIANT_IDX:
                     val = VARIANT_IDX[cls[src][0]]
+                elif src is not None and src in cls and isinstance(cls[src][0], str) and cls[src][0].startswith("variant#"):
+                    val = int(cls[src][0][8:])       # a crate-local enum value built on this path (`Phase::FillUp`)
             elif rv.k == "aggregate" and rv.j["ak"] == "adt":
                 kind = enum_kind_of_ty(fn.local_ty(l))
                 if kind:
@@ -678,6 +680,8 @@ class PathEnumerator:
                         else:
                             payload = ("term", self.tb.operand(o, bb, si))
                     c = (rv.j["variant"], payload)
+                elif not rv.ops and isinstance(rv.j.get("vidx"), int):
+                    c = ("variant#%d" % rv.j["vidx"], None)
             elif rv.k == "unop" and rv.j["op"] == "Not":
                 o = rv.ops[0]
                 if o.place is not None and o.place.is_local() and o.place.local in env and fn.local_ty(l) == "bool":
@@ -822,6 +826,7 @@ class PathEnumerator:
                 "origin_fn": self.fn.key, "argi": i, "via": ()})
         # a closure handed to an external higher-order function (fold, for_each, all, ...): what the closure writes through its
         # captured references is written by this call — an unknown number of times, once per item the function visits
+        clo_evs = []
         for i, a in enumerate(t.args):
             clo = self._closure_arg(a)
             if clo is None or self.summ is None or self.prog is None or self.prog.fn(clo[0]) is None:
@@ -856,7 +861,30 @@ class PathEnumerator:
                     if k in seen_w:
                         continue
                     seen_w.add(k)
-                    evs2, state2 = self._push(evs2, state2, e)
+                    clo_evs.append(e)
+        # `r.map_err(|e| { undo(); e })`: the closure runs exactly when r is Err, and the result has r's variant
+        cond_variant = None
+        if name == "map_err" and decl.startswith("std::result::Result") and clo_evs and t.args and t.args[0].place is not None and t.args[0].place.is_local():
+            srcl_ = t.args[0].place.local
+            known_v = cls.get(srcl_, (None, None))[0]
+            if known_v in ("Ok", "Err"):
+                cond_variant = [known_v]
+            else:
+                cond_variant = ["Ok", "Err"]
+        if cond_variant is None:
+            for e in clo_evs:
+                evs2, state2 = self._push(evs2, state2, e)
+        elif target is not None and dest is not None:
+            for v_ in cond_variant:
+                evs3, state3 = evs2, state2
+                if v_ == "Err":
+                    for e in clo_evs:
+                        evs3, state3 = self._push(evs3, state3, e)
+                e3, c3 = dict(env), dict(cls)
+                self._set_local(dest, e3, c3)
+                c3[dest] = (v_, cls.get(t.args[0].place.local, (None, None))[1] if v_ == "Ok" else None)
+                yield from self._next(bb, target, blocks, evs3, e3, c3, backcount, state3)
+            return
         env2, cls2 = dict(env), dict(cls)
         forks = [(None, None)]
         if dest is not None:
